@@ -200,3 +200,43 @@ Definition name_and_tld (s : bytes) : option (bytes * tld) :=
 (* strings.ToLower restricted to ASCII, then strings.ReplaceAll(nm, " ", "") *)
 Definition lower_ascii (c : N) : N := if ((65 <=? c) && (c <=? 90))%N then (c + 32)%N else c.
 Definition normalize (s : bytes) : bytes := filter (fun c => negb (c =? 32)%N) (map lower_ascii s).
+
+(* ---------- MsgInit: the other handler that creates name records ----------
+   x/rns/keeper/msg_server_init.go: an account that has not initialised before is handed the free
+   name MakeName(height, height) ++ ".jkl" for init_term blocks, unless that name is live. *)
+Definition init_term : Z := 5733818.
+
+Record init_op := {
+  i_basic_ok : bool;        (* MsgInit.ValidateBasic() = nil *)
+  i_fresh : bool;           (* GetInit(ctx, msg.Creator) finds nothing *)
+  i_name : option N;        (* index id of the generated name when it has no '.' and at least 6 characters *)
+  i_sender : N;             (* id of msg.Creator as written: the record stores the string as given *)
+  i_data : N;               (* id of "{}" *)
+  i_height : Z
+}.
+
+Definition init_name (s : rstate) (op : init_op) : outcome * rstate :=
+  if negb (i_basic_ok op) then (Fail, s) else
+  if negb (i_fresh op) then (Fail, s) else
+  match i_name op with
+  | None => (Fail, s)
+  | Some idx =>
+    let h := i_height op in
+    let live := match aget N.eqb (s_names s) idx with Some w => h <? n_expires w | None => false end in
+    if live then (Fail, s) else                                       (* Name already registered *)
+    let e := wrap64 (init_term + h) in
+    (Ok, {| s_names := aset N.eqb (s_names s) idx
+                         {| n_owner := i_sender op; n_expires := e; n_data := i_data op; n_locked := e; n_subs := 0 |};
+            s_primary := s_primary s; s_bank := s_bank s |})
+  end.
+
+(* histories of registrations and initialisations *)
+Inductive hop := HReg (o : reg_op) | HInit (o : init_op).
+Definition hop_height (o : hop) : Z := match o with HReg r => o_height r | HInit i => i_height i end.
+Definition hstep (acc : accts) (s : rstate) (o : hop) : outcome * rstate :=
+  match o with HReg r => register acc s r | HInit i => init_name s i end.
+Fixpoint hrun (acc : accts) (s : rstate) (ops : list hop) : rstate :=
+  match ops with
+  | [] => s
+  | o :: r => hrun acc (snd (hstep acc s o)) r
+  end.
